@@ -383,6 +383,10 @@ def kill_facts(snap, F):
 
 # ------------------------------------------------------------------------------ correspondence: family `entry`
 
+RULE_NOTE = ("; + family `entry`: public calls with a caller-chosen integer (psutil.pid_exists(n), psutil.Process(n), Process(n).wait(0), "
+             "Process(n).terminate()) on simulated process tables, every os.kill logged (signal 0 included): structured numbers of both signs "
+             "up to 2^64, ALL n in [-12, 12] on three tables (exhaustive_entry), random; non-trivial = n <= 0 or an os.kill was made")
+
 ROOT_OF = {"pid_exists": "__init__.py:pid_exists", "Process": "__init__.py:Process.__init__",
            "Process.wait": "_pslinux.py:Process.wait", "Process.terminate": "__init__.py:Process._send_signal"}
 METHOD_CALLS = ("Process.wait", "Process.terminate")
